@@ -77,6 +77,9 @@ func injectRefs(w *model.World, r *sim.RNG, metaRefs []string) {
 	}
 }
 
+// caseTwinPrefix is gen.Prefix with its last folder in upper case.
+var caseTwinPrefix = gen.Prefix[:strings.LastIndex(gen.Prefix, "/")+1] + strings.ToUpper(gen.Prefix[strings.LastIndex(gen.Prefix, "/")+1:])
+
 func mutateDoc(d interface{}, tag string) interface{} {
 	switch c := d.(type) {
 	case map[string]interface{}:
@@ -131,6 +134,10 @@ func (c16) Gen(r *sim.RNG, tier string, idx int) *Scenario {
 					}
 				}
 			}
+		}
+		if i > 0 && r.Intn(4) == 0 {
+			// the same tree under a folder whose name differs by letter case only: a different location
+			w = relocate(w, "file://"+gen.Prefix+"/", "file://"+caseTwinPrefix+"/")
 		}
 		sc.Worlds = append(sc.Worlds, w)
 	}
